@@ -76,11 +76,13 @@ abbrev Path := List String     -- segments between `/`
 /-- the loop over the merged segments -/
 def resolveLoop : List String → List String → List String
   | [], acc => acc.reverse
-  | ".." :: rest, acc => (match acc with
-      | [] => resolveLoop rest [".."]                   -- nothing to pop: keep the `..`
-      | _ :: acc' => resolveLoop rest acc')
-  | "." :: rest, acc => resolveLoop rest acc
-  | seg :: rest, acc => resolveLoop rest (seg :: acc)
+  | seg :: rest, acc =>
+    if seg = ".." then
+      (match acc with
+        | [] => resolveLoop rest [".."]                 -- nothing to pop: keep the `..`
+        | _ :: acc' => resolveLoop rest acc')
+    else if seg = "." then resolveLoop rest acc
+    else resolveLoop rest (seg :: acc)
 
 /-- `segments[1:-1] = filter(None, segments[1:-1])` -/
 def dropInnerEmpty (segs : List String) : List String :=
@@ -96,6 +98,27 @@ def joinPath (base rel : Path) : Path :=
   let resolved := resolveLoop segments []
   let resolved := if segments.getLast? == some "." || segments.getLast? == some ".." then resolved ++ [""] else resolved
   resolved
+
+/-! ### RFC 3986, 5.2.4 `remove_dot_segments`, on the segments of an absolute path -/
+
+def rfcLoop : List String → List String → List String
+  | [], st => st.reverse
+  | seg :: rest, st =>
+    if seg = ".." then rfcLoop rest st.tail            -- the root is never removed
+    else if seg = "." then rfcLoop rest st
+    else rfcLoop rest (seg :: st)
+
+/-- `segs` = the merged path split at `/` (first segment empty: the path is absolute) -/
+def rfcPath (segs : List String) : List String :=
+  "" :: rfcLoop segs.tail [] ++ (if segs.getLast? == some "." || segs.getLast? == some ".." then [""] else [])
+
+/-- the reference never climbs above the root: at depth `d`, every `..` finds something to remove -/
+def noClimb : Nat → List String → Bool
+  | _, [] => true
+  | d, seg :: rest =>
+    if seg = ".." then (d > 0 && noClimb (d - 1) rest)
+    else if seg = "." then noClimb d rest
+    else noClimb (d + 1) rest
 
 /-- `urlunparse` with a network location: a path that does not start with `/` gets one -/
 def unparsePath (segs : Path) : String :=
